@@ -2,6 +2,7 @@ package props
 
 import (
 	"fmt"
+	"math"
 	"math/big"
 	"sort"
 	"strings"
@@ -274,6 +275,10 @@ func (s *c19) genSelect(r *kit.Rng) kit.Op {
 		target = 1
 	}
 	maxIn := r.Range(-1, n+2)
+	if r.Chance(1, 12) {
+		// "no limit" as callers spell it
+		maxIn = []int{math.MaxInt32, math.MaxInt, math.MinInt, 1 << 20}[r.Intn(4)]
+	}
 	if r.Chance(1, 2) {
 		maxIn = r.Range(1, n+1)
 	}
